@@ -1,6 +1,7 @@
 import LenaModel.DriverUtil
 import LenaModel.Model.C12
 import LenaModel.Model.C12Ext
+import LenaModel.Model.C12Alias
 import LenaModel.Model.C12Spec
 /-! Model driver for C12.  Numbers are exact rationals written as strings `"n/d"` (or `"n"`, or a JSON integer);
 nested bins are nested JSON arrays of such numbers.
@@ -60,7 +61,14 @@ Specification vocabulary (Model/C12Spec.lean), compared by the harness with Pyth
   {"op":"spec_points","h":hist,"mode":str,"mv":..}      -> {"points":[[q..]..]}
   {"op":"spec_csv1","xs":[q..],"x_last":q,"vals":[q..],"dup":bool} -> {"rows":..,"bins":nested}
   {"op":"spec_csv2","xs":..,"x_last":q,"ys":..,"y_last":q,"vals":[[q..]..],"dup":bool} -> {"rows":..,"bins":nested}
-  {"op":"spec_names","coord":str,"names":[str..]}       -> {"r":[[is_err,error_field_of]..]} -/
+  {"op":"spec_names","coord":str,"names":[str..]}       -> {"r":[[is_err,error_field_of]..]}
+
+object level (Model/C12Alias.lean): a heap is a list of list objects, an address a position in it
+  {"op":"graph_refs","g":graph,"heap":[[q..]..],"cols":[n..],"other":q}     (graph.scale(other) on columns that are the
+      objects cols of the heap; g.coords must be what cols read)  -> {"refs":true,"coords":[[q..]..],"scale":q} | {"refs":true,"e":name}
+  {"op":"hist_scale_refs","h":hist,"heap":[[q|{"r":n}..]..],"root":n,"other":q}   (md_map of histogram.scale(other) on the
+      bins object at root; h.bins must be what root reads)       -> {"refs":true,"bins":nested} | {"refs":true,"e":name}
+  {"op":"nevents_refs","h":hist,"heap":..,"root":n,"n":q,"incl":bool}  (md_map of set_nevents)  -> as hist_scale_refs -/
 open Lean Lena Lena.Drv Lena.C12
 
 def ratOfString (s : String) : Option Rat :=
@@ -289,8 +297,65 @@ def runGChain (g : Graph) (g2 : Option Graph) : List Json → Graph × List Json
     let (gf, obs) := runGChain g1 g2 rest
     (gf, ob :: obs)
 
+def parseCell (j : Json) : Option Cell :=
+  match rat? j with
+  | some v => some (.num v)
+  | none => (nat? (getD j "r")).map Cell.ref
+
+def parseBinHeap (j : Json) : Option BinHeap := do
+  let a ← arr? j
+  a.toList.mapM (fun row => do
+    let r ← arr? row
+    r.toList.mapM parseCell)
+
+/-- depth bound for reading bins objects (histograms have at most a few dimensions) -/
+def refsFuel : Nat := 8
+
+def refsObj (fields : List (String × Json)) : Json := Json.mkObj (("refs", Json.bool true) :: fields)
+
+/-- `md_map(f, bins)` on the bins object at `root`, read back -/
+def mdMapRefs (f : Rat → Rat) (bins : NArr Rat) (hp : BinHeap) (root : Nat) : Json :=
+  match readBins refsFuel hp root with
+  | none => err "root does not read as bins"
+  | some a =>
+    if narrJson a != narrJson bins then err "heap does not read as the bins of h"
+    else match mdMapH f refsFuel hp root with
+      | none => refsObj [("e", Json.str "unmodelled")]
+      | some (hp', r') =>
+        match readBins refsFuel hp' r' with
+        | some b => refsObj [("bins", narrJson b)]
+        | none => err "new object does not read"
+
 def handle (j : Json) : Json :=
   match str? (getD j "op") with
+  | some "graph_refs" =>
+    match parseGraph (getD j "g"), ratLists? (getD j "heap"), (arr? (getD j "cols")).bind (fun a => a.toList.mapM nat?),
+          rat? (getD j "other") with
+    | some (.error er), _, _, _ => refsObj [("e", exc er)]
+    | some (.ok g), some hp, some cols, some other =>
+      if readCols hp cols != some g.coords then err "cols do not read as the coords of g"
+      else match graphSetScaleRefs g hp cols other with
+        | .error er => refsObj [("e", exc er)]
+        | .ok (hp', cols', sc) =>
+          match readCols hp' cols' with
+          | some cs => refsObj [("coords", rowsJson cs), ("scale", ofOpt ratJson sc)]
+          | none => err "new columns do not read"
+    | _, _, _, _ => err "bad graph_refs args"
+  | some "hist_scale_refs" =>
+    match parseHist (getD j "h"), parseBinHeap (getD j "heap"), nat? (getD j "root"), rat? (getD j "other") with
+    | some h, some hp, some root, some other =>
+      match getScale h false with
+      | .error er => refsObj [("e", exc er)]
+      | .ok (_, sc) =>
+        if sc = 0 then refsObj [("e", exc .lenaValueError)]
+        else mdMapRefs (fun binc => binc * other / sc) h.bins hp root
+    | _, _, _, _ => err "bad hist_scale_refs args"
+  | some "nevents_refs" =>
+    match parseHist (getD j "h"), parseBinHeap (getD j "heap"), nat? (getD j "root"), rat? (getD j "n"), bool? (getD j "incl") with
+    | some h, some hp, some root, some n, some incl =>
+      if getNevents h incl = 0 then refsObj [("e", exc .lenaValueError)]
+      else mdMapRefs (fun binc => binc * (n / getNevents h incl)) h.bins hp root
+    | _, _, _, _, _ => err "bad nevents_refs args"
   | some "mk_hist" =>
     match parseEdges (getD j "edges"), (if (getD j "bins").isNull then some none else (parseNArr (getD j "bins")).map some),
           rat? (getD j "init") with
